@@ -57,7 +57,7 @@ FIELD_PROPS = {
     "srv.cl.updTick": ["C04"],
     "srv.cl.pendingMap": ["C16"],
     "srv.cl.conn": ["C09"], "srv.cl.auth": ["C07"],
-    "cli.updTick": ["C03"],
+    "cli.updTick": ["C03", "C04"],
     "cli.ents": ["C01", "C02", "C03", "C16"],
     "cli.buf": ["C01", "C02"],
     "cli.status": ["C09"], "cli.panicked": ["C01", "C09"],
